@@ -18,8 +18,8 @@ import pathlib
 import common
 
 BASES = "ACGT"
-RULE = ("random DNA strands built by the real parsers (fasta / ig linear / ig circular / monomer list / json with node keys starting at 0, 1, 4, 7, compared on the true keys), "
-        "length 1..12 quick, up to 200 thorough, random edge attribute dicts; plus a malformed stream with "
+RULE = ("random DNA strands built by the real parsers (fasta / ig linear / ig circular / monomer list / json with node keys starting at 0, 1, 4, 7 and resids starting at 0, 1, 5, 11, 101, rings with and without a labelled closing edge; compared on the true keys and resids), "
+        "length 1..12 quick, up to 200 thorough, random edge attribute dicts (shared keys, values of every scalar type incl. falsy ones, compared typed); the strand ADDED by each completion is completed again as it stands (stage 2); plus a malformed stream with "
         "one unknown residue name; a case is non-trivial when n >= 2; distinct = (kind, sequence, labels); "
         "plus an end-to-end stream: real gen_params(lib=parmbsc1, dsdna=True/False) with the strand given by "
         "-seq or by -seqf (fasta / ig linear / ig circular / json), 2-6 nt, the written .itp read back")
@@ -27,9 +27,15 @@ RULE = ("random DNA strands built by the real parsers (fasta / ig linear / ig ci
 
 def canon_graph(graph):
     nodes = [[key, graph.nodes[key].get("resid"), graph.nodes[key].get("resname")] for key in graph.nodes]
-    edges = sorted([min(u, v), max(u, v), sorted([str(k), str(val)] for k, val in data.items())]
+    edges = sorted([min(u, v), max(u, v), sorted(typed_items(data))]
                    for u, v, data in graph.edges(data=True))
     return dict(nodes=nodes, edges=edges)
+
+
+def typed_items(data):
+    """items of an attribute dict as [key, repr(value)]: values are compared TYPED (0, False, "", None,
+    0.0 and "0" are six different labels), in insertion order"""
+    return [[str(k), repr(v)] for k, v in data.items()]
 
 
 def canon_model(jgraph):
@@ -66,23 +72,34 @@ def build_strand(kind, letters, tmpdir):
     return MetaMolecule.from_sequence_file(ff, pathlib.Path(path), "dna")
 
 
+def parse_json_kind(kind):
+    """(first key, first resid, circular, bare) of "json[-circular][-bare]-<first>[-r<resid0>]" """
+    parts = kind.split("-")[1:]
+    first = int([p for p in parts if p.isdigit()][0])
+    resid0 = [int(p[1:]) for p in parts if p.startswith("r") and p[1:].isdigit()]
+    return first, (resid0[0] if resid0 else 1), "circular" in parts, "bare" in parts
+
+
 def write_seq_file(kind, letters, tmpdir):
     """Write the strand (one-letter codes) as a sequence file of the given kind; returns the path."""
     if kind.startswith("json"):
-        # a residue graph given as .json may number its nodes from any integer (node keys are not
-        # residue ids); kind = "json-<first key>" or "json-circular-<first key>"
+        # a residue graph given as .json numbers its nodes from any integer (node keys are not residue
+        # ids) and carries its own resids; kind = "json[-circular][-bare]-<first key>[-r<first resid>]",
+        # "bare" = the ring closing edge has no attributes (API / json rings; .ig rings carry linktype)
         import json as _json
-        first = int(kind.rsplit("-", 1)[1])
+        first, resid0, circular, bare = parse_json_kind(kind)
         names = ["D" + c for c in letters]
-        circular = "circular" in kind
         if len(names) >= 2 and not circular:
             names[0] += "5"
             names[-1] += "3"
         ids = list(range(first, first + len(names)))
-        nodes = [{"id": idx, "resname": name, "resid": num + 1} for num, (idx, name) in enumerate(zip(ids, names))]
+        nodes = [{"id": idx, "resname": name, "resid": resid0 + num} for num, (idx, name) in enumerate(zip(ids, names))]
         edges = [{"source": a, "target": b} for a, b in zip(ids[:-1], ids[1:])]
         if circular:
-            edges.append({"source": ids[0], "target": ids[-1], "linktype": "circle"})
+            closing = {"source": ids[0], "target": ids[-1]}
+            if not bare:
+                closing["linktype"] = "circle"
+            edges.append(closing)
         data = {"directed": False, "multigraph": False, "graph": {}, "nodes": nodes, "edges": edges, "links": edges}
         path = os.path.join(tmpdir, "s.json")
         with open(path, "w") as handle:
@@ -113,26 +130,31 @@ def strand_request(meta):
     for i in range(n - 1):
         a, b = keys[i], keys[i + 1]
         data = meta.edges[(a, b)] if meta.has_edge(a, b) else {}
-        labels.append([[str(k), str(v)] for k, v in data.items()])
+        labels.append(typed_items(data))
     circ = None
     if n >= 3 and meta.has_edge(keys[0], keys[-1]):
-        circ = [[str(k), str(v)] for k, v in meta.edges[(keys[0], keys[-1])].items()]
+        circ = typed_items(meta.edges[(keys[0], keys[-1])])
     return names, labels, circ
 
 
+LABEL_KEYS = ["tag", "w", "linktype", "idx"]
+LABEL_VALUES = [0, 1, False, True, "", "x", None, 0.0, 2.5, "0", "t1", "circle"]
+
+
 def random_labels(rng, meta):
+    """random edge labels: a small key pool (so that the same key sits on several edges, `linktype`
+    included, which the ring parsers already set on the closing edge) and values of every JSON scalar
+    type, falsy ones included (0, False, "", None, 0.0)"""
     for u, v in list(meta.edges):
         roll = rng.random()
-        if roll < 0.3:
-            meta.edges[(u, v)]["tag"] = "t%d" % rng.randint(0, 3)
-        if roll > 0.8:
-            meta.edges[(u, v)]["w"] = str(rng.randint(0, 9))
+        if roll < 0.5:
+            for _ in range(rng.choice([1, 1, 2, 3])):
+                meta.edges[(u, v)][rng.choice(LABEL_KEYS)] = rng.choice(LABEL_VALUES)
 
 
 def one_case(ctx, kind, letters, label_seed, unknown_at=None):
-    """Runs the implementation; returns the requests for the model and a continuation that judges."""
+    """Builds the strand with the real parser; see `meta_case`."""
     import random
-    from polyply.src.gen_dna import complement_dsDNA
     rng = random.Random(label_seed)
     with tempfile.TemporaryDirectory() as tmpdir:
         meta = build_strand(kind, letters, tmpdir)
@@ -140,23 +162,49 @@ def one_case(ctx, kind, letters, label_seed, unknown_at=None):
     if unknown_at is not None:
         key = list(meta.nodes)[unknown_at]
         meta.nodes[key]["resname"] = "XY" + meta.nodes[key]["resname"]
+    replay = dict(kind=kind, letters=letters, label_seed=label_seed, unknown_at=unknown_at)
+    return meta_case(ctx, meta, replay)
+
+
+def meta_case(ctx, meta, replay, stage=1):
+    """Runs the implementation on a strand-shaped MetaMolecule; returns the requests for the model."""
+    from polyply.src.gen_dna import complement_dsDNA
     names, labels, circ = strand_request(meta)
-    # the REAL node keys go to the model and the specification (`first` = key of the first residue;
-    # theorems C19_complement_offset / C19_reject_offset cover every first key)
-    first = int(list(meta.nodes)[0]) if len(meta.nodes) else 0
+    # the REAL node keys and resids go to the model and the specification (`first` = key, `resid0` =
+    # resid of the first residue; theorems C19_complement_offset / C19_reject_offset cover all of them)
+    keys = list(meta.nodes)
+    first = int(keys[0]) if keys else 0
+    resid0 = int(meta.nodes[keys[0]]["resid"]) if keys else 1
     before = canon_graph(meta)
     adj_before = adjacency(meta)
     max_resid = meta.max_resid
+    out = None
     try:
         out = complement_dsDNA(meta)
         impl = dict(ok=True, graph=canon_graph(out))
     except Exception as err:  # pylint: disable=broad-except
         impl = dict(ok=False, err=type(err).__name__)
-    replay = dict(kind=kind, letters=letters, label_seed=label_seed, unknown_at=unknown_at)
-    reqs = [dict(op="strand", names=names, labels=labels, circ=circ, first=first),
-            dict(op="spec", names=names, labels=labels, circ=circ, first=first)]
+    reqs = [dict(op="strand", names=names, labels=labels, circ=circ, first=first, resid0=resid0),
+            dict(op="spec", names=names, labels=labels, circ=circ, first=first, resid0=resid0)]
     return dict(replay=replay, names=names, labels=labels, circ=circ, before=before, adj=adj_before,
-                max_resid=max_resid, impl=impl, reqs=reqs)
+                max_resid=max_resid, impl=impl, reqs=reqs, out=out, stage=stage)
+
+
+def second_strand_meta(out, n):
+    """The strand the implementation ADDED, as it stands in the output (real keys, real resids, real edge
+    attributes, ring closure included), as a MetaMolecule of its own."""
+    import networkx as nx
+    from polyply.src.meta_molecule import MetaMolecule
+    import vermouth.forcefield
+    keys = list(out.nodes)[n:]
+    graph = nx.Graph()
+    for key in keys:
+        graph.add_node(key, resid=out.nodes[key]["resid"], resname=out.nodes[key]["resname"])
+    for u in keys:
+        for v in out.adj[u]:
+            if v in graph.nodes and not graph.has_edge(u, v):
+                graph.add_edge(u, v, **dict(out.edges[(u, v)]))
+    return MetaMolecule(graph, force_field=vermouth.forcefield.ForceField(name="verif"), mol_name="dna")
 
 
 def judge(ctx, case, answers, second=None):
@@ -166,6 +214,7 @@ def judge(ctx, case, answers, second=None):
     n = len(case["names"])
     # tie of strandGraph to the real parsers' output (nodes, edges, adjacency order)
     ctx.correspond("strandGraph", case["before"], canon_model(strand["graph"]), replay)
+    ctx.correspond("strandGraph-max_resid", case["max_resid"], strand["graph"]["max_resid"], replay)
     ctx.correspond("strandGraph-adjacency", {str(k): v for k, v in case["adj"].items()},
                    {str(k): v for k, v in model_adjacency(strand["graph"]).items()}, replay)
     # model of the code vs the code
@@ -180,45 +229,36 @@ def judge(ctx, case, answers, second=None):
             ctx.oracle_fail("rejects-valid-strand", "complement_dsDNA raised %s on a valid strand %s"
                             % (impl["err"], replay), replay)
         elif impl["graph"] != want:
-            ctx.oracle_fail("wrong-complement", "complement differs from strand ++ antiparallel Watson-Crick "
-                            "complement: got %s want %s" % (impl["graph"], want), replay)
+            ctx.oracle_fail("wrong-complement", "%scomplement differs from strand ++ antiparallel Watson-Crick "
+                            "complement: got %s want %s"
+                            % ("(stage 2: the strand added for %s, completed again) " % (replay,)
+                               if case.get("stage", 1) == 2 else "", impl["graph"], want), replay)
     else:
         if impl["ok"]:
             ctx.oracle_fail("accepts-unknown-resname", "complement_dsDNA accepted a strand with an unknown "
                             "residue name: %s" % (replay,), replay)
-    key = (replay["kind"], replay["letters"], replay["label_seed"], replay["unknown_at"]) if n >= 2 else None
-    ctx.case(key, sample=dict(input=replay, names=case["names"][:8], result=impl if n <= 4 else "(%d residues)" % (2 * n)),
-             kind=replay["kind"], n=("1" if n == 1 else "2" if n == 2 else "3-12" if n <= 12 else ">12"),
+    stage = case.get("stage", 1)
+    if stage == 2:
+        # "complementing the added strand again recovers the original sequence"
+        third = [node[2] for node in impl["graph"]["nodes"][n:]] if impl["ok"] else "raised " + impl["err"]
+        if third != case["original"]:
+            ctx.oracle_fail("not-involutive", "complementing the added strand of %s (as it stands in the output: "
+                            "names %s, first key %s, first resid %s, circular %s) gives %s, not the original %s"
+                            % (replay, case["names"], case["before"]["nodes"][0][0], case["before"]["nodes"][0][1],
+                               case["circ"] is not None, third, case["original"]), replay)
+        ctx.tally(involution_checked=True)
+    key = (replay["kind"], replay["letters"], replay["label_seed"], replay["unknown_at"], stage) if n >= 2 else None
+    ctx.case(key, sample=dict(input=replay, stage=stage, names=case["names"][:8],
+                              result=impl if n <= 4 else "(%d residues)" % (2 * n)),
+             kind=replay["kind"] if stage == 1 else "second-strand", n=("1" if n == 1 else "2" if n == 2 else "3-12" if n <= 12 else ">12"),
              valid=spec["ok"])
-
-
-def involution_case(ctx, case):
-    """Complement the added strand again with the real code: must give the original names."""
-    from polyply.src.meta_molecule import MetaMolecule, Monomer
-    from polyply.src.gen_dna import complement_dsDNA
-    import vermouth.forcefield
-    impl = case["impl"]
-    if not impl["ok"]:
-        return
-    n = len(case["names"])
-    second = [node[2] for node in impl["graph"]["nodes"][n:]]
-    ff = vermouth.forcefield.ForceField(name="verif")
-    meta = MetaMolecule.from_monomer_seq_linear(ff, [Monomer(resname=x, n_blocks=1) for x in second], "dna")
-    try:
-        out = complement_dsDNA(meta)
-        third = [out.nodes[k]["resname"] for k in list(out.nodes)[n:]]
-    except Exception as err:  # pylint: disable=broad-except
-        third = "raised " + type(err).__name__
-    if third != case["names"]:
-        ctx.oracle_fail("not-involutive", "complementing the added strand of %s gives %s, not the original %s"
-                        % (case["replay"], third, case["names"]), case["replay"])
-    ctx.tally(involution_checked=True)
 
 
 def gen_cases(ctx):
     rng = ctx.rng
     kinds = ["fasta", "ig-linear", "ig-circular", "monomers", "json-0", "json-1", "json-7", "json-circular-1",
-             "json-circular-4"]
+             "json-circular-4", "json-circular-bare-0", "json-circular-bare-4-r11", "json-7-r5", "json-1-r0",
+             "json-circular-1-r101"]
     cases = []
     # exhaustive small shapes first
     for kind in kinds:
@@ -244,7 +284,8 @@ def gen_cases(ctx):
 # `-seqf`, the written .itp read back (property anchor gen_itp.py: "completing a strand of n nucleotides
 # yields 2n residues")
 
-E2E_SOURCES = ["seq", "fasta", "ig-linear", "ig-circular", "json-0", "json-1", "json-7", "json-circular-4"]
+E2E_SOURCES = ["seq", "fasta", "ig-linear", "ig-circular", "json-0", "json-1", "json-7", "json-circular-4",
+               "json-circular-bare-1", "json-4-r5"]
 
 
 def read_itp_residues(path):
@@ -285,6 +326,7 @@ def e2e_case(ctx, source, letters, dsdna):
         meta = build_strand(kind, letters, tmpdir)
         names, labels, circ = strand_request(meta)
         first = int(list(meta.nodes)[0]) if len(meta.nodes) else 0
+        resid0 = int(meta.nodes[list(meta.nodes)[0]]["resid"]) if len(meta.nodes) else 1
         out = pathlib.Path(tmpdir) / "out.itp"
         kwargs = dict(name="dna", outpath=out, inpath=[], lib=["parmbsc1"], dsdna=dsdna)
         if source == "seq":
@@ -298,9 +340,9 @@ def e2e_case(ctx, source, letters, dsdna):
             impl = dict(ok=False, err=type(err).__name__)
     replay = dict(stream="e2e", source=source, letters=letters, dsdna=dsdna)
     reqs = [dict(op="genparams", source=("seq" if source == "seq" else "seq_file"), dsdna=dsdna,
-                 names=names, labels=labels, circ=circ, first=first),
-            dict(op="spec", names=names, labels=labels, circ=circ, first=first)]
-    return dict(replay=replay, names=names, impl=impl, reqs=reqs, dsdna=dsdna)
+                 names=names, labels=labels, circ=circ, first=first, resid0=resid0),
+            dict(op="spec", names=names, labels=labels, circ=circ, first=first, resid0=resid0)]
+    return dict(replay=replay, names=names, impl=impl, reqs=reqs, dsdna=dsdna, resid0=resid0)
 
 
 def e2e_judge(ctx, case, model, spec):
@@ -313,7 +355,7 @@ def e2e_judge(ctx, case, model, spec):
         if case["dsdna"]:
             want = [[node[1], node[2]] for node in spec["graph"]["nodes"]]   # 2n residues
         else:
-            want = [[i + 1, nm] for i, nm in enumerate(names)]
+            want = [[case["resid0"] + i, nm] for i, nm in enumerate(names)]
         if not impl["ok"]:
             ctx.oracle_fail("gen-params-rejects-valid-strand", "gen_params(dsdna=%s) raised %s on %s"
                             % (case["dsdna"], impl["err"], replay), replay)
@@ -388,6 +430,21 @@ def corpus_e2e_cases():
     return out
 
 
+def ask_and_judge(ctx, cases):
+    reqs = []
+    for case in cases:
+        reqs += case["reqs"]
+    answers = ctx.driver.ask(reqs) if reqs else []
+    # second round: model complement on the model's own strand graph
+    comp_reqs = [dict(op="complement", graph=dict(nodes=answers[2 * i]["graph"]["nodes"],
+                                                  edges=answers[2 * i]["graph"]["edges"],
+                                                  max_resid=case["max_resid"]))
+                 for i, case in enumerate(cases)]
+    comp_answers = ctx.driver.ask(comp_reqs) if comp_reqs else []
+    for i, case in enumerate(cases):
+        judge(ctx, case, [answers[2 * i], answers[2 * i + 1], comp_answers[i]])
+
+
 def run_cases(ctx, specs):
     cases = []
     for kind, letters, label_seed, unknown in specs:
@@ -397,20 +454,23 @@ def run_cases(ctx, specs):
             # the real parser refused / crashed on a valid sequence: not C19's business unless it is the
             # completion itself; record and continue
             ctx.tally(parser_failed=type(err).__name__)
-    reqs = []
+    ask_and_judge(ctx, cases)
+    # stage 2: the strand the implementation added, exactly as it stands in the output (real keys, resids
+    # n+1.., labels, ring closure), is itself a strand: complete it again — same correspondence, same
+    # specification, and its added strand must carry the original names
+    second = []
     for case in cases:
-        reqs += case["reqs"]
-    answers = ctx.driver.ask(reqs)
-    # second round: model complement on the model's own strand graph
-    comp_reqs = [dict(op="complement", graph=dict(nodes=answers[2 * i]["graph"]["nodes"],
-                                                  edges=answers[2 * i]["graph"]["edges"],
-                                                  max_resid=case["max_resid"]))
-                 for i, case in enumerate(cases)]
-    comp_answers = ctx.driver.ask(comp_reqs)
-    for i, case in enumerate(cases):
-        judge(ctx, case, [answers[2 * i], answers[2 * i + 1], comp_answers[i]])
-        if case["replay"]["unknown_at"] is None:
-            involution_case(ctx, case)
+        n = len(case["names"])
+        if case["impl"]["ok"] and case["out"] is not None and len(case["out"].nodes) == 2 * n:
+            try:
+                meta2 = second_strand_meta(case["out"], n)
+                case2 = meta_case(ctx, meta2, dict(case["replay"]), stage=2)
+                case2["original"] = case["names"]
+                second.append(case2)
+            except Exception as err:  # pylint: disable=broad-except
+                ctx.oracle_fail("not-involutive", "the added strand of %s cannot be completed again: %s %s"
+                                % (case["replay"], type(err).__name__, err), case["replay"])
+    ask_and_judge(ctx, second)
 
 
 def run(ctx):
